@@ -144,6 +144,18 @@ def bounded(tier, seed, R):
                     R.fail("view_shape|mismatch", "view_shape(%r, %r) = %r, numpy says %r" % (shape, view, got, exp),
                            "import numpy as np\nfrom numpy import array\nfrom glue.utils.array import view_shape\nshape, view = %r, %r\n"
                            "sys.exit(0 if tuple(view_shape(shape, view)) == (tuple(shape) if view is None else np.zeros(shape)[view].shape) else 1)\n" % (shape, view))
+    # (d'') tuples made only of slices, with every sign and size of step (numpy's shape of the view)
+    for shape in ((5, 4), (6,), (2, 3, 4), (1, 5)):
+        per_axis = [slice(None), slice(None, None, -1), slice(None, None, -2), slice(4, 0, -1), slice(1, None, -3), slice(None, 2, -1), slice(-1, None, -1), slice(0, 5, 2), slice(3, 1), slice(-2, -5, -1)]
+        combos = list(itertools.product(per_axis, repeat=len(shape))) if len(shape) < 3 else [tuple(rng.choice(per_axis) for _ in shape) for _ in range(120)]
+        combos += [c[:k] for c in combos[:40] for k in range(1, len(shape))]
+        for view in combos:
+            exp = np.zeros(shape)[view].shape
+            got = A.view_shape(shape, view)
+            R.count(('vs-slices', shape, repr(view)) if exp != tuple(shape) else None, 'view_shape')
+            if tuple(got) != tuple(exp):
+                R.fail("view_shape|slices-of-any-step", "view_shape(%r, %r) = %r, numpy says %r" % (shape, view, tuple(got), exp),
+                       "import numpy as np\nfrom glue.utils.array import view_shape\nshape, view = %r, %r\nsys.exit(0 if tuple(view_shape(shape, view)) == np.zeros(shape)[view].shape else 1)\n" % (shape, view))
     # (d') the answer does not depend on earlier calls: views that compare (and hash) equal but index differently - an integer and the
     # boolean scalar of equal value (x[1] drops an axis, x[True] adds one) - asked one after the other, in both orders
     twins = [(1, True), (0, False), ((slice(1, 3), 1), (slice(1, 3), True)), ((Ellipsis, 0), (Ellipsis, False)), (np.int64(1), np.bool_(True)), ((0, 1), (False, True))]
